@@ -3,6 +3,7 @@
     internal/data_model/bucket.go               ItemValue.Merge, addOnlyValue, AddValueCounterHost, SimpleItemValue/Counter
     internal/data_model/max_host_probability.go ItemCounter.Merge, AddCounterHost, CounterHostDistribution
     internal/data_model/ch_arg_minmax_*.go      ArgMin/ArgMax…Float32.Merge
+    internal/data_model/bucket.go               MultiValue.ApplyUnique (event-level entry for unique values)
     internal/api/tscache.go                     tsValues.merge (numeric fields, hosts, unique; percentile not modelled)
 
   Numbers: float64 in Go. The model is exact arithmetic over `Int` in the domain where float64 is exact
@@ -99,6 +100,23 @@ def Multi.zero : Multi := { v := Agg.zero, u := Unique.nilSk }
 /-- MultiValue.Merge: HLL.Merge, then Value.Merge -/
 def mergeMulti (mv : Unique.MergeV) (P : Unique.Params) (d : Nat) (s o : Multi) : Multi :=
   { v := merge d s.v o.v, u := Unique.merge mv P s.u o.u }
+
+/-- the temporary item ApplyUnique builds: every hash is also a value with count 1; if the event's count differs from the
+    number of hashes the sums are rescaled (`*= count`, `/= totalCount`). Quarter units: count 1 = 4.
+    Exact when the division is (the harness uses count = len(hashes), or len(hashes) ∈ {1,2,4} with an integer count). -/
+def uniqueItem (hashes : List Int) (c : Int) (h : Host) : Value :=
+  let n : Int := hashes.length
+  let tmp := hashes.foldl (fun t v => addOnlyValue t v 4 h) (simpleCounter c h)
+  if c ≠ 4 * n then { tmp with sum := tmp.sum * c / (4 * n), sumsq := tmp.sumsq * c / (4 * n) } else tmp
+
+/-- `uint64(hash)` for an int64 -/
+def hashKey (v : Int) : UInt64 := UInt64.ofNat (v % 18446744073709551616).toNat
+
+/-- MultiValue.ApplyUnique(rng, hashes, count, hostTag): the event-level entry for unique values -/
+def applyUnique (P : Unique.Params) (d : Nat) (s : Multi) (hashes : List Int) (c : Int) (h : Host) : Multi :=
+  if hashes.isEmpty then s
+  else { v := merge d s.v (uniqueItem hashes c h),
+         u := hashes.foldl (fun u v => Unique.insertVal P u (hashKey v)) s.u }
 
 /-! ### API rows: tsValues.merge -/
 
